@@ -26,13 +26,29 @@ import os
 import time
 
 from . import common
-from .sched import Deadlock, Scheduler, make_execmodel
+from .sched import Deadlock, SchedAbort, Scheduler, make_execmodel
 
 MODEL_EVENTS = ("sp", "rf", "st", "en", "sd", "wa", "tm", "gt", "pl")
 
 
 class TaskError(Exception):
     """the exception a `raise` body raises (never an OSError/ValueError, which the pool itself uses)"""
+
+
+class TaskExit(SystemExit):
+    pass
+
+
+class TaskKbd(KeyboardInterrupt):
+    pass
+
+
+class TaskBase(BaseException):
+    """neither Exception nor SystemExit/KeyboardInterrupt (like asyncio.CancelledError)"""
+
+
+# a task may end with ANY exception class: Reply.get must re-raise exactly it and the task must count as finished
+TASK_EXC = (TaskError, TaskExit, TaskBase, TaskKbd, GeneratorExit)
 
 
 # ---------------------------------------------------------------------------------------
@@ -69,7 +85,7 @@ def execute(execnet, scn, choices=None, rng=None, preempt=0, preempt_prob=0.0, m
             if op[0] == "spawn":
                 kinds[op[1]] = op[2]
     counts = {t: 0 for t in kinds}
-    excs = {t: TaskError("task %d" % t) for t in kinds}
+    excs = {t: TASK_EXC[t % len(TASK_EXC)]("task %d" % t) for t in kinds}
     rel = {t: sched.Event() for t in kinds}
     replies = {}
     state = {"primary": None, "pool": None}
@@ -105,12 +121,14 @@ def execute(execnet, scn, choices=None, rng=None, preempt=0, preempt_prob=0.0, m
             if to is None:
                 problems.append("get() without timeout raised OSError for task %d" % t)
             ev("gt", i, t, 0, timed)
-        except TaskError as e:
-            if kinds[t] != "raise" or e is not excs[t]:
-                problems.append("get() of task %d re-raised the wrong exception %r" % (t, e))
-            ev("gt", i, t, 1, timed)
         except BaseException as e:  # noqa: BLE001
-            problems.append("get() of task %d raised %r" % (t, e))
+            if isinstance(e, SchedAbort):
+                raise
+            if e is excs.get(t):
+                if kinds[t] != "raise":
+                    problems.append("get() of task %d re-raised an exception although the body returned: %r" % (t, e))
+            else:
+                problems.append("get() of task %d raised %r (expected %s)" % (t, e, "its own exception" if kinds[t] == "raise" else "a value"))
             ev("gt", i, t, 1, timed)
         else:
             if kinds[t] == "raise" or v != ("v", t):
